@@ -24,6 +24,8 @@ def generate(rng, tier, rep):
     cases = []
     for i in range(n):
         tests = []
+        # in some worlds thread names repeat (a pool of workers all called alike): a name is no identity either
+        samenames = rng.random() < 0.3
         parked = []          # indices into the global list of started threads
         count = 0
         for t in range(rng.randint(2, 6)):
@@ -32,6 +34,8 @@ def generate(rng, tier, rep):
                 api = rng.choice(['threading', 'threading', '_thread'])
                 hold = rng.random() < 0.6
                 name = rng.choice(['vw-leak-%d', 'ign-%d', 'worker-%d', 'WORKER-%d', 'IGN-%d']) % count
+                if samenames:
+                    name = rng.choice(['vw-leak', 'vw-leak', 'worker-x', 'ign-x'])
                 rel = []
                 if parked and rng.random() < 0.5:
                     k = rng.choice(parked)
@@ -60,6 +64,7 @@ def generate(rng, tier, rep):
                 opts += ['--ignore-new-thread', 'worker-1$']
         cases.append({'layers': [], 'tests': tests, 'options': opts})
         rep.count('tests=%d' % len(tests))
+        rep.count('thread names repeat' if samenames else 'thread names unique')
         rep.count('threads=%d' % count)
         rep.count('lowlevel-registered=%d' % sum(1 for T in tests for s in T['threads'] if s.get('cur')))
     return cases
